@@ -7,6 +7,15 @@ CHECKS = {
  "C01": ("model_checking", "explicit-state BFS over construction histories on the real code + save/load probe in every state",
          "Every state reachable by bounded construction histories (declare, rates, 16 parameter shapes, descriptions, locks, frames, columns, reload) is saved, reloaded with the library and compared field by field (bit-exact floats, residuals, dims, descriptions, locks, header counts).",
          "bounded by the alphabet/shape guards in coverage.runs; POINT:DATA_START's value is excluded (file pointer, C03); strings compared modulo trailing spaces", "§3 C01", "api"),
+ "C02": ("exploration", "deviation-bounded exhaustive enumeration of well-formed files (independent encoder) executed on the real loader, compared with an independent reference decoder",
+         "Default content/layout plus every combination of <= 3 (quick) / 4 (thorough) non-default alternatives over 20 content and layout dimensions (incl. every vendor layout the statement lists), plus the four shipped binary files; each loaded object is compared with the reference decode of the same bytes: header counts, frame range, rates, events, every named group/parameter (type, dims, values, description, lock), every point x/y/z/residual and every analog sample at its (frame, sub-frame, channel). Only minimal deviation sets are reported.",
+         "trusted base: genfile.h/refc3d.h written from the spec (decode(encode(x)) checked on every case; decoder also runs on the vendor files)", "§3 C02", "file"),
+ "C04": ("exploration", "deviation-bounded exhaustive enumeration of well-formed files through 3 (quick) / 4 (thorough) load/save generations on the real code; self-differential + byte equality",
+         "Every file of the C02 enumeration (<= 2 / 3 deviations) and the shipped files: G1=load(f), save, G2=load, save(, G3): content of consecutive generations equal on named groups/parameters, frames, residuals, samples, frame range, rates, events; generation-2 and generation-3 files byte-identical.",
+         "placeholder groups of unused ids are ignored in the comparison", "§3 C04", "file"),
+ "C12": ("exploration", "exhaustive enumeration of integer / float bit patterns in generated files, loaded, compared with the reference reading, re-saved and compared byte-wise",
+         "All 2^8 byte values, all 2^16 integer values, boundary-dense header words and 2048 float patterns (every exponent and sign) in every float-carrying position: loaded value = the bytes' two's-complement / unsigned / bit-pattern reading; re-saved element bytes identical.",
+         "float patterns: 4 mantissas per exponent/sign; header rate patterns step 8 in quick, all in thorough", "§3 C12", "file"),
  "C03": ("model_checking", "explicit-state BFS on the real code + independent reference decoder on every saved file",
          "Every reachable object is saved and its bytes decoded by refc3d (spec-level decoder that follows only the file's own pointers); 12 clauses (pointers, block count, next-offsets, terminator, padding, header-vs-parameters, float marker, data size, upper-case names, lock signs, content) each with its own signature.",
          "trusted base: harness/refc3d.h (bound to the vendor files and to the implementation by the selftest and by C02)", "§3 C03", "api"),
@@ -39,7 +48,7 @@ CHECKS = {
          "container sizes bounded by the shape guards", "§3 C11", "api"),
 }
 NOT_YET = {}
-TODO = ["C02", "C04", "C12", "C15", "C16", "C17", "C18", "C19"]
+TODO = ["C15", "C16", "C17", "C18", "C19"]
 
 def main():
     checks = []
@@ -51,7 +60,8 @@ def main():
     m = {"version": 1, "setup_cmd": "python3 run.py build plain asan",
          "hooks": {"guard": "EZC3D_VERIF", "enable": "no source hooks are needed: state is read through public accessors, libc is interposed at link time, scheduling points come from -finstrument-functions",
                    "baseline_off_cmd": "cmake --build /repo/_build && ctest --test-dir /repo/_build -j8 --timeout 900", "source_commits": [], "add_only": True},
-         "engines": [{"name": "api", "path": "harness/drv_api.cpp", "serves_properties": sorted(p for p, c in CHECKS.items() if c[5] == "api"), "kind_free_text": "explicit-state BFS over API histories executed on the real library (forked level-synchronous workers, 128-bit state hash of the public-accessor dump + aliasing partition)"}],
+         "engines": [{"name": "file", "path": "harness/drv_file.cpp", "serves_properties": sorted(p for p, c in CHECKS.items() if c[5] == "file"), "kind_free_text": "deviation-bounded enumeration of generated C3D files (independent encoder/decoder) executed on the real loader and writer"},
+                     {"name": "api", "path": "harness/drv_api.cpp", "serves_properties": sorted(p for p, c in CHECKS.items() if c[5] == "api"), "kind_free_text": "explicit-state BFS over API histories executed on the real library (forked level-synchronous workers, 128-bit state hash of the public-accessor dump + aliasing partition)"}],
          "checks": checks, "not_applicable": na,
          "notes": "All checks rebuild the harness against /repo's current working tree (content-hashed cache under /verif/build). Known findings: known_findings.json."}
     json.dump(m, open(os.path.join(V, "MANIFEST.json"), "w"), indent=1)
